@@ -467,6 +467,11 @@ impl<'a> Socket<'a> {
             return None;
         }
 
+        if Ipv4Cidr::new(dhcp_repr.your_ip, prefix_len).broadcast() == Some(dhcp_repr.your_ip) {
+            net_debug!("DHCP ignoring ACK because your_ip is the broadcast address of its subnet");
+            return None;
+        }
+
         let mut lease_duration = dhcp_repr
             .lease_duration
             .map(|d| Duration::from_secs(d as _))
